@@ -222,16 +222,36 @@ func compactString(dst, src []byte, cursor int64, escape bool) ([]byte, int64, e
 		switch c {
 		case '\\':
 			cursor++
-			if src[cursor] == nul {
+			switch src[cursor] {
+			case '"', '\\', '/', 'b', 'f', 'n', 'r', 't':
+			case 'u':
+				for i := int64(1); i <= 4; i++ {
+					// the sentinel is not a hex digit, so this never reads past it
+					if !isHexDigit(src[cursor+i]) {
+						return nil, 0, errors.ErrSyntax("invalid \\u escape in string", cursor+i)
+					}
+				}
+				cursor += 4
+			case nul:
 				return nil, 0, errors.ErrUnexpectedEndOfJSON("string", int64(len(src)))
+			default:
+				return nil, 0, errors.ErrSyntax(fmt.Sprintf("invalid escape character '%c' in string", src[cursor]), cursor)
 			}
 		case '"':
 			cursor++
 			return append(dst, src[start:cursor]...), cursor, nil
 		case nul:
 			return nil, 0, errors.ErrUnexpectedEndOfJSON("string", int64(len(src)))
+		default:
+			if c < 0x20 {
+				return nil, 0, errors.ErrSyntax("invalid control character in string", cursor)
+			}
 		}
 	}
+}
+
+func isHexDigit(c byte) bool {
+	return ('0' <= c && c <= '9') || ('a' <= c && c <= 'f') || ('A' <= c && c <= 'F')
 }
 
 func compactNumber(dst, src []byte, cursor int64) ([]byte, int64, error) {
